@@ -80,7 +80,8 @@ func verifyFunction(P *Program, fn *ssa.Function, con *Contract, safe bool, prop
 		env.fr = nil
 		e.applyGhostEffects(st, con, env)
 	}
-	if con != nil && con.has("by-induction") {
+	if con != nil && con.has("by-induction") && e.propActive(con.get("by-induction")[0].Props) {
+		// (a by-induction clause tagged with properties replaces the body only in their checks)
 		e.inductionObligations(st, con)
 		e.renameSites()
 		return e
@@ -104,9 +105,19 @@ func (e *Engine) inductionObligations(st *State, con *Contract) {
 	env := e.rootEnv(st, nil)
 	env.fr = nil
 	props := con.Props
+	// only the clauses of the property under check take part (a function may carry contracts of several)
+	mine := func(kind string) []*Clause {
+		var out []*Clause
+		for _, c := range con.get(kind) {
+			if len(e.props) == 0 || len(c.Props) == 0 && !c.Tmpl || e.propActive(c.Props) && len(c.Props) > 0 {
+				out = append(out, c)
+			}
+		}
+		return out
+	}
 	s0 := st.clone()
 	// reflexive
-	for k, c := range con.get("ensures") {
+	for k, c := range mine("ensures") {
 		g := e.evalSpecBool(st, s0, c.Expr, env)
 		e.oblige(st, fmt.Sprintf("%s#induction:reflexive#%d %s", name, k+1, c.Label), "K6", c.Text, g, "", props)
 	}
@@ -116,10 +127,10 @@ func (e *Engine) inductionObligations(st *State, con *Contract) {
 	na := e.fresh("A", "Int")
 	s1.assume(fmt.Sprintf("(>= %s %s)", na, s1.A.term()))
 	s1.A = allocCtr{na, 0}
-	for _, c := range con.get("ensures") {
+	for _, c := range mine("ensures") {
 		s1.assume(e.evalSpecBool(s1, s0, c.Expr, env))
 	}
-	for _, c := range con.get("requires") {
+	for _, c := range mine("requires") {
 		g := e.evalSpecBool(s1, s1, c.Expr, env)
 		e.oblige(s1, fmt.Sprintf("%s#induction:requires-preserved %s", name, c.Label), "K6", c.Text, g, "", props)
 	}
@@ -128,10 +139,10 @@ func (e *Engine) inductionObligations(st *State, con *Contract) {
 	nb := e.fresh("A", "Int")
 	s2.assume(fmt.Sprintf("(>= %s %s)", nb, s2.A.term()))
 	s2.A = allocCtr{nb, 0}
-	for _, c := range con.get("ensures") {
+	for _, c := range mine("ensures") {
 		s2.assume(e.evalSpecBool(s2, s1, c.Expr, env))
 	}
-	for k, c := range con.get("ensures") {
+	for k, c := range mine("ensures") {
 		g := e.evalSpecBool(s2, s0, c.Expr, env)
 		e.oblige(s2, fmt.Sprintf("%s#induction:transitive#%d %s", name, k+1, c.Label), "K6", c.Text, g, "", props)
 	}
@@ -245,6 +256,21 @@ func containsByValue(outer, inner types.Type) bool {
 		}
 		if _, ok := isStruct(ft); ok && containsByValue(ft, inner) {
 			return true
+		}
+	}
+	return false
+}
+
+// propActive: is a clause tagged with these properties in force for the check under way?
+func (e *Engine) propActive(ps []string) bool {
+	if len(ps) == 0 || len(e.props) == 0 {
+		return true
+	}
+	for _, a := range e.props {
+		for _, b := range ps {
+			if a == b {
+				return true
+			}
 		}
 	}
 	return false
